@@ -262,6 +262,32 @@ def run(ctx, name, kind, **kw):
         # invalid point objects
         bad = PointJacobi(cfp, x, (y + 1) % p, 1, n)
         judge_object(ctx, c, dom, bad, (x, (y + 1) % p), "object.invalid", c.name + "|off")
+        # point objects that live on ANOTHER curve object: same field, other b (the classic invalid-curve point), and another named curve
+        for db in (1, 2):
+            b2 = (cv.b + db) % p
+            pts2 = ()
+            xx = x
+            while not pts2:
+                xx = (xx + 1) % p
+                r2 = nt.sqrt_mod((xx * xx * xx + cv.a * xx + b2) % p, p)
+                if r2:
+                    pts2 = ((xx, r2),)
+            P2 = pts2[0]
+            if not cv.on_curve(P2):
+                cfp2 = lib.CurveFp(p, cv.a, b2, 1)
+                judge_object(ctx, c, dom, PointJacobi(cfp2, P2[0], P2[1], 1, n), P2, "object.invalid", c.name + "|other_b|jac")
+                judge_object(ctx, c, dom, Point(cfp2, P2[0], P2[1]), P2, "object.invalid", c.name + "|other_b|legacy")
+        oc = lib.BY_NAME["SECP256k1" if c.name != "SECP256k1" else "NIST256p"]
+        og = lib.dom_of(oc).G
+        if og[0] < p and og[1] < p and not cv.on_curve(og):
+            judge_object(ctx, c, dom, oc.generator * 7 if False else PointJacobi(oc.curve, og[0], og[1], 1), og, "object.invalid", c.name + "|foreign_named_curve")
+        # valid points with x = 0 (when b is a square)
+        y0 = nt.sqrt_mod(cv.b, p)
+        if y0:
+            for P0 in ((0, y0), (0, p - y0)):
+                for enc in ENCS:
+                    all_containers(ctx, c, dom, sec1.encode_point(dom, P0, enc), "valid", c.name + "|x0", enc, True)
+                judge_object(ctx, c, dom, PointJacobi(cfp, 0, P0[1], 1, n), P0, "object.valid", c.name + "|x0")
         # container-level defects
         good = sec1.encode_point(dom, P, "uncompressed")
         spki = der_ref.spki(tuple(c.oid), good)
@@ -310,6 +336,10 @@ def run(ctx, name, kind, **kw):
             for tag, P1 in outs.items():
                 for enc in ENCS:
                     all_containers(ctx, c, dom, sec1.encode_point(dom, P1, enc), "subgroup.outside", c.name + "|" + tag, enc, True)
+                # the other parity byte for the same x (for y = 0 there is no root of that parity at all)
+                flipped = bytes([2 + (1 - (P1[1] & 1))]) + P1[0].to_bytes(L, "big")
+                all_containers(ctx, c, dom, flipped, "subgroup.outside", c.name + "|flipped|" + tag, "compressed", True)
+                all_containers(ctx, c, dom, bytes([6 + (1 - (P1[1] & 1))]) + sec1.encode_point(dom, P1, "raw"), "hybrid_parity_flip", c.name + "|" + tag, "hybrid", True)
                 judge_object(ctx, c, dom, PointJacobi(cfp, P1[0], P1[1], 1, n), P1, "subgroup.outside", c.name + "|obj|" + tag)
                 judge_object(ctx, c, dom, Point(cfp, P1[0], P1[1]), P1, "subgroup.outside", c.name + "|legacy|" + tag)
         else:
